@@ -21,6 +21,8 @@ def chain_text(pipe, gen2=False):
             out += ".each(|x| (x, 7))"
         elif a == "keep":
             out += ".keep(|x| x != 2)"
+        elif a == "takew":
+            out += ".take(|x| x != 3)"
         elif a in ("skip", "take", "step", "chunks", "windows"):
             out += ".%s(%d)" % (a, n)
         elif a == "intersperse":
@@ -69,12 +71,23 @@ def consumers_script(p, kind):
          "print %s.position(|x| x == 3)" % e, "print %s.find(|x| x == 3)" % e, "print %s.any(|x| x == 3)" % e,
          "print %s.all(|x| x != 3)" % e]
     if p["allints"]:
-        L += ["print %s.sum()" % e, "print %s.product()" % e if False else "print 0", "print %s.min()" % e, "print %s.max()" % e,
+        L += ["print %s.sum()" % e, "print %s.product()" % e, "print %s.min()" % e, "print %s.max()" % e,
               "print %s.min_max()" % e, "print %s.fold(100, |a, x| a - x)" % e]
     L.append("n = 0\nfor x in %s\n  n += 1\nprint n" % e)
     # docs/core_lib/iterator.md: last, count, to_tuple consume the iterator -- nothing is left afterwards
-    for cons in ("last", "count", "to_tuple"):
+    for cons in ("last", "count", "to_tuple", "consume", "to_string"):
         L.append("it = %s\nit.%s()\nprint it.next()" % (e, cons))
+    # to_string: the formatted values, one after the other; consume with a function: called for each value in order
+    L.append("print %s.to_string()" % e)
+    L.append("seen = []\n%s.consume(|x| seen.push x)\nprint seen" % e)
+    return "\n".join(L) + "\n"
+
+
+def both_ends_script(p, kind):
+    pre, src = source_text(kind, p["n"])
+    L = [pre + "it = " + src + chain_text(p["pipe"])]
+    for e in p["ends"]:
+        L += ["x = it.%s()" % ("next" if e == "f" else "next_back"), "print if x == null then 'end' else 'out {x.get()}'"]
     return "\n".join(L) + "\n"
 
 
@@ -91,10 +104,14 @@ def consumers_expected(p):
         acc = 100
         for x in vals:
             acc -= x
-        E += [str(p["sum"]), "0", str(p["minv"]) if allv else "null", str(p["maxv"]) if allv else "null",
+        prod = 1
+        for x in vals:
+            prod *= x
+        E += [str(p["sum"]), str(prod), str(p["minv"]) if allv else "null", str(p["maxv"]) if allv else "null",
               "(%d, %d)" % (p["minv"], p["maxv"]) if allv else "null", str(acc)]
     E.append(str(p["count"]))
-    E += ["null", "null", "null"]
+    E += ["null", "null", "null", "null", "null"]
+    E += ["".join(ds), "[" + ", ".join(ds) + "]"]
     return E
 
 
@@ -132,12 +149,19 @@ def run(tier, seed):
             k2 = kinds[1 + (i % 2)]
             jobs.append({"id": "c%d" % i, "src": consumers_script(p, k2), "limit_ms": 5000})
             meta.append(("cons", p, k2))
+        if p["ends"]:
+            k4 = ["list", "tuple", "range", "bytes"][i % 4]
+            job = {"id": "e%d" % i, "src": both_ends_script(p, k4), "limit_ms": 5000}
+            if k4 == "bytes":
+                job["bytes"] = list(range(1, p["n"] + 1))
+            jobs.append(job)
+            meta.append(("ends", p, k4))
         if not any(ad["a"] in ("peekable",) for ad in p["pipe"]) and i % 3 == 0:
             k3 = "list" if not has_rev else "tuple"
             jobs.append({"id": "k%d" % i, "src": copy_script(p, k3), "limit_ms": 5000})
             meta.append(("copy", p, k3))
     results = common.kv_parallel("run", jobs)
-    counts = {"step": 0, "cons": 0, "copy": 0}
+    counts = {"step": 0, "cons": 0, "copy": 0, "ends": 0}
     for job, (what, p, kind), r in zip(jobs, meta, results):
         why = None
         counts[what] += 1
@@ -177,13 +201,15 @@ def run(tier, seed):
                         why = "missing outputs"
             elif what == "cons":
                 exp = consumers_expected(p)
-                if p["allints"]:
-                    lines[9] = "0"
                 if lines != exp:
                     k = 0
                     while k < min(len(lines), len(exp)) and lines[k] == exp[k]:
                         k += 1
                     why = "consumer %d: expected %r got %r" % (k, exp[k] if k < len(exp) else None, lines[k] if k < len(lines) else None)
+            elif what == "ends":
+                exp = [("out " + disp(s["v"])) if s["some"] else "end" for s in p["both"]]
+                if lines != exp:
+                    why = "next / next_back in the order %s: expected %s got %s" % ("".join(p["ends"]), exp, lines)
             else:
                 outs = [("out " + disp(s["v"])) if s["some"] else "end" for s in p["steps"]]
                 exp = [outs[0], outs[1], outs[2], outs[1], outs[3]]
@@ -196,11 +222,12 @@ def run(tier, seed):
         "states": res.distinct, "transitions": res.states_generated, "traces_validated_against_impl": len(jobs),
         "samples": [{"pipe": pipes[7]["pipe"], "n": pipes[7]["n"], "script": stepwise_script(pipes[7], "gen")}],
         "evaluations": len(jobs), "distinct_nontrivial": len(pipes),
-        "rule": "sources: generator, list, tuple, range and a byte iterator constructed on the Rust side; every well-formed pipeline of depth <= %d over 25 adaptor instances (each, keep, enumerate, intersperse, chain, zip, "
+        "rule": "sources: generator, list, tuple, range and a byte iterator constructed on the Rust side; every well-formed pipeline of depth <= %d over 26 adaptor instances (each, keep, take with a test function, enumerate, intersperse, chain, zip, "
                 "flatten, reversed, peekable, cycle, skip/take x {0,1,2,5}, step/chunks/windows x {1,2,3}) x source length 0..%d "
                 "(%d pipelines, all model-checked: OutputsEqualDefinition, StaysExhausted, PullsEachOnce); replay: 9 stepwise "
                 "next() calls over a pull-logging generator (outputs exact, pulls bounded by the adaptor machines, none before "
-                "consumption), 15 consumers over list/tuple/range sources, copy independence" % (2 if quick else 3, 4 if quick else 5, total),
+                "consumption), 20 consumers over list/tuple/range sources, next/next_back in turn on bidirectional pipelines "
+                "(BothEndsEqualDefinition), copy independence" % (2 if quick else 3, 4 if quick else 5, total),
         "scripts": counts, "exhaustive": quick or total <= 40000,
     }
     rep.assumptions = ["pull counts are checked as an upper bound only (the docs do not fix how far step/chunks/windows read ahead)",
